@@ -53,6 +53,8 @@ use crate::vt::LogId;
 pub enum SOp {
     W(Op),
     Flush,
+    /// flush(None): synced, but nobody is told
+    FlushNoCb,
     /// wait for the oldest flush not yet waited for
     WaitAck,
     WaitIdle,
@@ -67,6 +69,7 @@ impl SOp {
         match self {
             SOp::W(o) => o.short(),
             SOp::Flush => "F".into(),
+            SOp::FlushNoCb => "Fn".into(),
             SOp::WaitAck => "W".into(),
             SOp::WaitIdle => "I".into(),
             SOp::Read => "R".into(),
@@ -150,6 +153,9 @@ pub fn plan(hist: &[SOp], cfg: &Cfg) -> Plan {
                 p.flush_ops.push(i);
                 j.on_flush_done();
             }
+            SOp::FlushNoCb => {
+                j.on_flush_done();
+            }
             SOp::WaitAck => {
                 p.wait_targets.insert(i, waited);
                 waited += 1;
@@ -209,6 +215,7 @@ pub fn sop_to_json(o: &SOp) -> Value {
     match o {
         SOp::W(w) => crate::seqx::op_to_json(w),
         SOp::Flush => json!({"op":"F"}),
+        SOp::FlushNoCb => json!({"op":"Fn"}),
         SOp::WaitAck => json!({"op":"W"}),
         SOp::WaitIdle => json!({"op":"I"}),
         SOp::Read => json!({"op":"R"}),
@@ -220,6 +227,7 @@ pub fn sop_to_json(o: &SOp) -> Value {
 pub fn sop_from_json(v: &Value) -> SOp {
     match v["op"].as_str().unwrap_or("") {
         "F" => SOp::Flush,
+        "Fn" => SOp::FlushNoCb,
         "W" => SOp::WaitAck,
         "I" => SOp::WaitIdle,
         "R" => SOp::Read,
@@ -310,6 +318,10 @@ fn caller_body(spec: HistSpec, pl: Arc<Plan>, dir: String, acks: Arc<AckLog>, ou
                     Err(e) => (false, format!("Err: {}", e)),
                 }
             }
+            SOp::FlushNoCb => match rl.flush(None) {
+                Ok(()) => (true, String::new()),
+                Err(e) => (false, format!("Err: {}", e)),
+            },
             SOp::WaitAck | SOp::WaitIdle => (true, String::new()),
             SOp::Drain => {
                 rl.drain_cache_evictable();
@@ -724,7 +736,7 @@ fn analyze(
             vios.push(svio(spec, "open-fresh-failed", format!("opening a fresh directory failed: {}", e), json!({})));
         }
         for (i, ok, info) in &co.op_results {
-            if let SOp::W(_) | SOp::Flush = &spec.hist[*i] {
+            if let SOp::W(_) | SOp::Flush | SOp::FlushNoCb = &spec.hist[*i] {
                 if *ok != pl.accepted[*i] {
                     vios.push(svio(
                         spec,
@@ -841,7 +853,7 @@ fn analyze(
                 continue; // not effective
             }
             // a later flush makes the purge's removals due
-            let Some(fq) = spec.hist.iter().enumerate().position(|(k, o)| k > q && matches!(o, SOp::Flush)) else { continue };
+            let Some(fq) = spec.hist.iter().enumerate().position(|(k, o)| k > q && matches!(o, SOp::Flush | SOp::FlushNoCb)) else { continue };
             let j = &pl.journal_after[fq];
             // closed chunks at the time of that flush = all but the newest of (pending removal + retained)
             let mut starts: Vec<u64> = j.files();
@@ -1421,6 +1433,7 @@ fn unlink_oracle(
 
 #[derive(Clone, Copy, Debug, PartialEq, Eq)]
 pub enum Sym {
+    Fn,
     A,
     Aup,
     Alow,
@@ -1473,6 +1486,7 @@ pub fn instantiate(sym: Sym, m: &RefLog, outstanding_flushes: usize, waited: usi
         Sym::C => w(Op::Commit(last?)),
         Sym::U => w(Op::UserData(Some(format!("u{}", m.st.user_data.as_ref().map(|s| s.len()).unwrap_or(0) + 1)))),
         Sym::F => Some(SOp::Flush),
+        Sym::Fn => Some(SOp::FlushNoCb),
         Sym::W => {
             if outstanding_flushes > waited {
                 Some(SOp::WaitAck)
